@@ -122,6 +122,15 @@ theorem svlv_fromWords_canon (ws : List Word) (hok : WordsOk ws) : Canon (fromWo
     simp only [hbig, if_false, accumulate_two64 _ _ hl2 hx, accumulate_two64 _ _ hl2 hb]
     exact ⟨e ▸ pack_lt _ ws hx, e ▸ pack_lt _ ws hb⟩
 
+/-- **Lossless = injective**: two canonical values of the same width with the same word vector have the
+same payload and the same X/Z mask — no two distinct 4-state values share an encoding. -/
+theorem svlv_injective (v v' : Val) (hc : Canon v) (hc' : Canon v') (hw : v.width = v'.width)
+    (h : toWords v = toWords v') : v.payload = v'.payload ∧ v.mask = v'.mask := by
+  have e := svlv_roundtrip v hc
+  rw [h, svlv_roundtrip v' hc', hw] at e
+  unfold mkVal at e
+  split at e <;> simp only [Val.mk.injEq] at e <;> exact ⟨e.2.1.symm, e.2.2.1.symm⟩
+
 /-- The two arms agree: the words do not depend on which representation holds the value. -/
 theorem svlv_arm_independent (p m w : Nat) :
     toWords ⟨.u64, p, m, w⟩ = toWords ⟨.big, p, m, w⟩ := by
